@@ -125,6 +125,22 @@ def install_walker_env(ctx, eng, nsources=1):
     S(r"^ignore::Match::<.*>::is_none$", mk(0))
     S(r"^ignore::Match::<.*>::is_whitelist$", mk(2))
 
+    S(r"^Gitignore::path$", lambda e, st, c, a, d: Outcome(RefV(Cell(P(deref_ref(e, st, a[0]).attrs["root"], "Path")))))
+
+    # ---- walkdir::Error accessors: nothing is known about a walk error beyond what the accessors say (all symbolic)
+    S(r"^walkdir::Error::depth$", lambda e, st, c, a, d: Outcome(e.fresh_int(st, "usize", "werr_depth")))
+
+    def s_werr_io(eng, st, callee, args, dty):
+        w = deref_ref(eng, st, args[0])
+        io = w.attrs.setdefault("io", OpaqueV("std::io::Error", "werr_io_%d" % next(eng.fresh_ids)))
+        has = z3.Bool("werr_has_io_%s" % io.name)
+        v = io if "into" in callee else RefV(Cell(io))
+        return [Outcome(AggV("Option", 1, [v], "Some"), [has]), Outcome(AggV("Option", 0, [], "None"), [z3.Not(has)])]
+    S(r"^walkdir::Error::(io_error|into_io_error)$", s_werr_io)
+    S(r"^walkdir::Error::(path|loop_ancestor)$", lambda e, st, c, a, d: [
+        Outcome(AggV("Option", 1, [RefV(Cell(P(("werr_path",), "Path")))], "Some"), [z3.Bool("werr_has_%s" % c.split("::")[-1])]),
+        Outcome(AggV("Option", 0, [], "None"), [z3.Not(z3.Bool("werr_has_%s" % c.split("::")[-1]))])])
+
     # ---- WalkDir (per-entry abstraction)
     def s_wd_new(eng, st, callee, args, dty):
         return Outcome(OpaqueV("WalkDir", None, {"root": pexpr(eng, st, args[0]), "follow": BoolV(False)}),
@@ -369,9 +385,9 @@ def _walker(ctx, src_exprs):
                 cur["ev"].append(e)
         errs = [e for e in ev if is_errev(e)]
         if errs and not is_err(p.ret):
-            ctx.fail("C04: a failed %s makes the walker return Err" % errs[0].name, str(names[-8:]))
+            ctx.fail("C04/C13: a failed %s makes the walker return Err" % errs[0].name, str(names[-8:]))
         elif errs:
-            ctx.passed("C04: every failed call makes the walker return Err")
+            ctx.passed("C04/C13: every failed call (an entry the walk could not read or resolve included) makes the walker return Err")
         # ---- gitignore wiring (C17)
         gi_new = [e for e in ev if e.name == "gi.new"]
         gi_build = [e for e in ev if e.name == "gi.build" and e.ret == "ok"]
